@@ -1122,6 +1122,11 @@ from $super_module import (
     visit,
     _ctx as _super_ctx,
 )
+
+# The module that this one extends (the module itself, not its name: the name
+# may denote another grammar later).
+import sys as _sys
+_super_module = _sys.modules['$super_module']
 '''
 
 _subgrammar_body = '''
